@@ -115,8 +115,8 @@ func c11ClientRun(c c11ClientCase) (classes []string, nontrivial bool, o c11h.Ou
 			}
 		}
 	})
-	if o.Hung {
-		return append(classes, "hung"), true, o
+	if o.Hung || o.Inconclusive {
+		return append(classes, "gave-up-waiting"), true, o
 	}
 	return append(classes, cls...), nontrivial, o
 }
